@@ -82,6 +82,12 @@ def eval_rule(rule, rel):
       if not CMP[op](env[a], ev_term(b, env)):
         ok = False
         break
+    # negated atoms ~Q(args), all variables bound by the positive part: no row of Q matches
+    for q, args in rule.get('negs') or []:
+      want = tuple(ev_term(t, env) for t in args)
+      if any(tup[:len(want)] == want for tup in (rel.get(q) or ())):
+        ok = False
+        break
     if not ok:
       continue
     h = tuple(ev_term(t, env) for t in rule['head'])
@@ -133,7 +139,14 @@ def deps(p):
   for r in p.get('rules', []):
     for q, _, _ in r['atoms']:
       out.add(q)
+    for q, _ in r.get('negs') or []:
+      out.add(q)
   return out
+
+
+def nonmonotone(preds):
+  """Names of predicates with a negated atom in some rule."""
+  return {p['name'] for p in preds if any(r.get('negs') for r in p.get('rules', []))}
 
 
 def sccs(preds):
@@ -210,6 +223,8 @@ def expand_functors(program):
       q['name'] = mapping[m]
       for ru in q['rules']:
         for a in ru['atoms']:
+          a[0] = subst.get(a[0], a[0])
+        for a in ru.get('negs') or []:
           a[0] = subst.get(a[0], a[0])
       p['preds'].append(q)
       p['copy_of'][mapping[m]] = m
